@@ -22,6 +22,18 @@ PROPS["C12"] = dict(
     assumptions=["stored-key order is Pebble's DefaultComparer (bytes.Compare), which pebble/pebble.go configures"],
 )
 
+PROPS["C19"] = dict(
+    title="The gossiped shard view converges and never regresses to an older leader",
+    design_ref="DESIGN.md section 7 (C19)",
+    run_files=["Run/C19Run.v"],
+    engines=[dict(cmd=["c19"], corr="Model.View.{merge,update} <-> cluster.mergeShardInfo, shardView.update")],
+    level_text="Theorems for all update multisets, orders, repetitions and groupings: the merged view is a function of the set of updates (under Raft consistency of the updates, shown necessary by a counterexample), retains max-cci membership and max-term leader, never replaces a leader by an older or leaderless update, term never regresses; merging a peer's merged view equals receiving its updates. Model compared with mergeShardInfo/shardView.update on random multisets; the Go side also re-applies permutations, duplicates and remote-view merges.",
+    level_note="Trusts: Coq kernel; genconst (noLeader); correspondence run; membership map abstracted to a label (the merge only copies it wholesale); Raft consistency of gossip updates is a hypothesis of the order-independence theorems.",
+    technique="Coq proof (characterisation of fold merge as a set-determined maximum, induction over update lists) + differential correspondence check against mergeShardInfo/shardView.update",
+    trusted=["Model/View.v hand-written model of storage/cluster/view.go; Replicas map abstracted to a label"],
+    assumptions=["updates for one shard are Raft-consistent (same term+leader present => same leader; same config-change index => same membership) for the order-independence theorems"],
+)
+
 # Properties not (yet) claimed, each with a reason; kept current as checks are added.
 _PENDING = "check not built yet in this development; will be claimed once its model, theorems and correspondence harness exist"
 NOT_APPLICABLE = [dict(property_id="C%02d" % i, reason=_PENDING) for i in range(1, 20) if "C%02d" % i not in PROPS]
